@@ -189,9 +189,9 @@ func (sc *c07Scenario) Run(s *simrt.Sim) {
 		case "GetChannelRecv":
 			return h.Do(name, "GetChannelRecv", op.D, func() (interface{}, error) {
 				ch := getCh()
-				tm := time.NewTimer(op.D)
-				defer tm.Stop()
 				tk := simrt.B(-4)
+				tm := time.NewTimer(op.D) // after the yield point of B: no virtual time may pass before the select
+				defer tm.Stop()
 				select {
 				case v, ok := <-ch:
 					simrt.U(tk)
